@@ -334,10 +334,13 @@ class MonthStep(Contract):
     summaries = {(AP, "AnimalPopulation.feed_animals"): _feed_summary,
                  (AP, "AnimalPopulation.calculate_change_in_population"): _change_summary}
 
-    def __init__(self, order, other_size, month_zero):
-        self.order, self.other_size, self.month_zero = order, other_size, month_zero
+    def __init__(self, order, other_size, month_zero, species=("cattle", "horse")):
+        # species: (species of the dairy + meat pair, species of the third herd).  The shipped world aggregate has a camel
+        # dairy herd next to a 'camelids' herd: one species name is a prefix of the other, and they are different species.
+        self.order, self.other_size, self.month_zero, self.species = order, other_size, month_zero, species
         self.name = (f"month-loop body, herds in order {'/'.join(order)}, third herd {other_size}, "
-                     + ("month 0" if month_zero else "any later month"))
+                     + ("month 0" if month_zero else "any later month")
+                     + ("" if species == ("cattle", "horse") else f", species {species[0]} next to {species[1]}"))
 
     def call(self, I, S, a):
         return I.call(month_body(I), [unwrap(x) for x in a["args"]], {})
@@ -345,9 +348,9 @@ class MonthStep(Contract):
     def inputs(self, S):
         self.loops = {(AP, "main__month_body", tail_loop(S.I)[0]): BodySummary(_tail_summary)}
         S.set_conversions(S.real("kd"), S.real("fd"), S.real("pd"), False, False, S.real("pop"))
-        hs = {"milk": herd(S, "dairy", "milk", "cattle", "large", self.month_zero),
-              "meat": herd(S, "beef", "meat", "cattle", "large", self.month_zero),
-              "other": herd(S, "other", "meat", "horse", self.other_size, self.month_zero)}
+        hs = {"milk": herd(S, "dairy", "milk", self.species[0], "large", self.month_zero),
+              "meat": herd(S, "beef", "meat", self.species[0], "large", self.month_zero),
+              "other": herd(S, "other", "meat", self.species[1], self.other_size, self.month_zero)}
         animals = [unwrap(hs[k]["obj"]) for k in self.order]
         ruminants = [unwrap(hs["milk"]["obj"]), unwrap(hs["meat"]["obj"])]
         # the country object exactly as main() builds it (real constructor and setters, executed from source)
@@ -533,6 +536,7 @@ def _mk():
         cs.append(MonthStep(("milk", "meat", "other"), "large", mz))
         cs.append(MonthStep(("other", "meat", "milk"), "large", mz))
         cs.append(MonthStep(("meat", "other", "milk"), "medium", mz))
+        cs.append(MonthStep(("milk", "other", "meat"), "large", mz, species=("camel", "camelids")))
         if os.environ.get("VERIF_TIER") == "thorough":
             # every order of the three herds, third herd in each size class
             import itertools
